@@ -244,6 +244,8 @@ namespace sqf::runtime
                 return value_scope;
             }
         }
+        int scalar_decimals() const { return m_scalar_decimals; }
+        void scalar_decimals(int decimals) { m_scalar_decimals = decimals; }
         std::shared_ptr<sqf::runtime::value_scope> default_value_scope() { return get_value_scope(m_default_scope_key); }
         void default_value_scope(std::string key) { m_default_scope_key = key; }
 
@@ -313,6 +315,9 @@ namespace sqf::runtime
         // max_runtime budget is measured from here.
         std::chrono::system_clock::time_point m_run_timestamp;
         bool m_runtime_error;
+        // Number of decimals scalars are printed with (-1: default), set by unary toFixed.
+        // Activated for the executing thread whenever this runtime executes.
+        int m_scalar_decimals = -1;
 
         std::chrono::system_clock::time_point m_created_timestamp;
         std::chrono::system_clock::time_point m_current_time;
